@@ -30,7 +30,7 @@ const (
 
 // PSpec is the JSON-able description of one protocol the harness constructs.
 type PSpec struct {
-	K    string `json:"k"`              // bitswap | gateway | gs | unknown
+	K    string `json:"k"`              // bitswap | gateway | gs | unknown | httpv1 (= metadata.HTTPV1())
 	Cid  string `json:"cid,omitempty"`  // gs: hex of the piece CID bytes
 	VD   bool   `json:"vd,omitempty"`   // gs: VerifiedDeal
 	FR   bool   `json:"fr,omitempty"`   // gs: FastRetrieval
@@ -46,6 +46,8 @@ func (s PSpec) id() uint64 {
 		return idGateway
 	case "gs":
 		return idGS
+	case "httpv1":
+		return uint64(multicodec.Http)
 	}
 	return s.Code
 }
@@ -89,6 +91,8 @@ func (s PSpec) build() metadata.Protocol {
 		return &metadata.GraphsyncFilecoinV1{PieceCID: c, VerifiedDeal: s.VD, FastRetrieval: s.FR}
 	case "unknown":
 		return &metadata.Unknown{Code: multicodec.Code(s.Code), Payload: unknownRaw(s.Code, mustHex(s.Body))}
+	case "httpv1":
+		return metadata.HTTPV1()
 	}
 	panic("harness: unknown spec kind " + s.K)
 }
@@ -109,6 +113,8 @@ func (s PSpec) oproto() OProto {
 		return OProto{K: "gs", Cid: mustHex(s.Cid), VD: s.VD, FR: s.FR}
 	case "unknown":
 		return OProto{K: "unknown", Code: s.Code, Raw: unknownRaw(s.Code, mustHex(s.Body))}
+	case "httpv1":
+		return observe(metadata.HTTPV1()) // whatever the library's constructor gives
 	}
 	return OProto{K: s.K}
 }
